@@ -13,6 +13,7 @@ variable (S : Sizes)
 macro "safe_step" : tactic => `(tactic| first
   | assumption
   | exact safe_skip
+  | apply safe_failOp
   | apply safe_seq
   | apply safe_guard
   | apply safe_allocSelf
@@ -78,7 +79,7 @@ theorem safe_blockDecoderInit (c : Chain) : Safe (blockDecoderInit S c) := by
   unfold blockDecoderInit
   repeat safe_step
 
-theorem safe_streamEncoderUpdate (c : Chain) : Safe (streamEncoderUpdate S c) := by
+theorem safe_streamEncoderUpdate (cur c : Chain) : Safe (streamEncoderUpdate S cur c) := by
   have hb := safe_blockEncoderInit S c
   unfold streamEncoderUpdate
   apply safe_replaceOpts
@@ -87,11 +88,13 @@ theorem safe_streamEncoderUpdate (c : Chain) : Safe (streamEncoderUpdate S c) :=
   split
   · exact (safe_seq (safe_setData _ _) (safe_seq (safe_onSub0 hb) (safe_setData _ _))) n
   · split
-    · exact Spec.pure (by ceqn)
+    · split
+      · exact safe_failOp _ n
+      · exact safe_skip n
     · exact Spec.pure (by ceqn)
 
 theorem safe_streamEncoderInit (c : Chain) : Safe (streamEncoderInit S c) := by
-  have := safe_streamEncoderUpdate S c
+  have := safe_streamEncoderUpdate S c c
   unfold streamEncoderInit
   repeat safe_step
 
@@ -103,7 +106,8 @@ theorem safe_streamEncode (c : Chain) (act len : Nat) : Safe (streamEncode S c a
   have hb := safe_blockEncoderInit S c
   intro n
   simp only [streamEncode]
-  refine (safe_seq ?_ (safe_seq ?_ ?_)) n
+  refine (safe_seq ?_ (safe_seq ?_ (safe_seq ?_ ?_))) n
+  · repeat safe_step
   · repeat safe_step
   · repeat safe_step
   · repeat safe_step
